@@ -1235,3 +1235,274 @@ func isLoopHeaderOrBody(f *ssa.Function, b *ssa.BasicBlock) bool {
 	}
 	return false
 }
+
+// ruleEncodersStateless: the encoder packages keep no state between calls: outside package
+// initialisation nothing in them stores into a package-level variable (directly, through
+// sync/atomic, or an atomic.Value). A cache shared by all goroutines (the last rendered second, a
+// scratch buffer) hands one caller's rendering to another.
+func ruleEncodersStateless(r *Run, p *Prog, rule string, rels []string) {
+	n, nFns := 0, 0
+	for _, f := range p.ModFns {
+		in := false
+		for _, rel := range rels {
+			if pkgRel(f) == rel {
+				in = true
+			}
+		}
+		if !in || f.Blocks == nil || (f.Parent() == nil && (f.Name() == "init" || strings.HasPrefix(f.Name(), "init#"))) {
+			continue
+		}
+		nFns++
+		globalOf := func(v ssa.Value) *ssa.Global {
+			for hops := 0; hops < 4; hops++ {
+				switch x := v.(type) {
+				case *ssa.Global:
+					return x
+				case *ssa.FieldAddr:
+					v = x.X
+					continue
+				case *ssa.IndexAddr:
+					v = x.X
+					continue
+				}
+				break
+			}
+			return nil
+		}
+		eachInstr(f, func(b *ssa.BasicBlock, i int, in ssa.Instruction) {
+			var g *ssa.Global
+			switch x := in.(type) {
+			case *ssa.Store:
+				g = globalOf(x.Addr)
+			case *ssa.Call:
+				if o := calleeObj(&x.Call); o != nil && o.Pkg() != nil && o.Pkg().Path() == "sync/atomic" && len(x.Call.Args) > 0 {
+					nm := o.Name()
+					if strings.HasPrefix(nm, "Store") || strings.HasPrefix(nm, "Swap") || strings.HasPrefix(nm, "Add") || strings.HasPrefix(nm, "CompareAndSwap") || nm == "Store" {
+						g = globalOf(x.Call.Args[0])
+					}
+				}
+			}
+			if g == nil || g.Pkg == nil || g.Pkg != f.Pkg {
+				return
+			}
+			n++
+			r.Ob(rule, FnName(f)+"/writes-package-state:"+g.Name(), p.Pos(in.Pos()), false, true, FnName(f)+" writes the package-level variable "+g.Name()+" while encoding: state shared by every goroutine and every logger — one caller's rendering (a cached timestamp text, a scratch buffer) reaches another caller's event")
+		})
+	}
+	r.Ob(rule, "encoders/stateless", "-", nFns >= 60, false, fmt.Sprintf("%d encoder functions examined, %d write package-level state", nFns, n))
+}
+
+// ruleTimestampHookUnconditional: the hook behind With().Timestamp() adds its field on every
+// path (a "skip when the key is already there" test looks at bytes, not at top-level keys).
+func ruleTimestampHookUnconditional(r *Run, p *Prog, rule string) {
+	ts := p.Method("", "Event", "Timestamp")
+	run := p.Method("", "timestampHook", "Run")
+	if !r.Anchor(ts != nil && run != nil, rule, "(*Event).Timestamp / timestampHook.Run") {
+		return
+	}
+	fv := p.View(run, "keep-Timestamp", func(g *ssa.Function) bool { return g == ts })
+	adds := func(in ssa.Instruction) bool {
+		c, ok := in.(*ssa.Call)
+		return ok && staticCallee(&c.Call) == ts
+	}
+	skip, path := pathExists(fv, nil, isReturn, adds, nil)
+	r.Ob(rule, FnName(run)+"/adds-its-field-on-every-path", p.Pos(run.Pos()), !skip, true, tern(!skip, "every path of the timestamp hook calls e.Timestamp()", "the timestamp hook can return without adding its field: events that merely contain the key's bytes somewhere (a nested object, a string value) lose their top-level time member"+pathHint(p, path)))
+}
+
+// ruleTypeSwitchNoShadow: in the Fields type switch a concrete type that has its own arm is not
+// captured by an earlier interface arm it happens to implement (net.IP / net.HardwareAddr are
+// fmt.Stringers: a Stringer arm in front of them turns their tagged binary form into plain text).
+func ruleTypeSwitchNoShadow(r *Run, p *Prog, rule string) {
+	f := p.Func("", "appendFieldList")
+	if !r.Anchor(f != nil, rule, "appendFieldList") {
+		return
+	}
+	type arm struct {
+		t   types.Type
+		pos token.Pos
+	}
+	byOperand := map[ssa.Value][]arm{}
+	eachInstr(f, func(b *ssa.BasicBlock, i int, in ssa.Instruction) {
+		if ta, ok := in.(*ssa.TypeAssert); ok && ta.CommaOk {
+			byOperand[ta.X] = append(byOperand[ta.X], arm{ta.AssertedType, ta.Pos()})
+		}
+	})
+	n, bad := 0, ""
+	for _, arms := range byOperand {
+		if len(arms) < 10 {
+			continue // not the big value switch
+		}
+		n++
+		// go/ssa emits the tests of a type switch in case order
+		for j, c := range arms {
+			if _, isIface := c.t.Underlying().(*types.Interface); isIface {
+				continue
+			}
+			for i := 0; i < j; i++ {
+				it, isIface := arms[i].t.Underlying().(*types.Interface)
+				if !isIface || it.Empty() {
+					continue
+				}
+				if types.Implements(c.t, it) && bad == "" {
+					bad = fmt.Sprintf("the arm for %s is shadowed by the earlier interface arm %s, which that type implements", types.TypeString(c.t, nil), types.TypeString(arms[i].t, nil))
+				}
+			}
+		}
+	}
+	if n == 0 {
+		r.Fail(rule, FnName(f)+"/arms-not-shadowed", p.Pos(f.Pos()), "the value type switch of appendFieldList was not found")
+		return
+	}
+	r.Ob(rule, FnName(f)+"/arms-not-shadowed", p.Pos(f.Pos()), bad == "", true, tern(bad == "", "no concrete arm of the Fields type switch is captured by an earlier interface arm", bad+": through Fields() the value is encoded by the interface arm (plain text) instead of its own arm (the same encoding the typed method uses)"))
+}
+
+// ruleStringHeaderLen: a CBOR text/byte string item announces len(x) of the very x whose bytes
+// follow. A length computed some other way (counted per rune, adjusted for replacements) and a
+// payload produced by a different transformation disagree for some inputs, and the item swallows
+// or leaks the bytes of its neighbours.
+func ruleStringHeaderLen(r *Run, p *Prog, rule string) {
+	prefix := p.Func(cborRel, "appendCborTypePrefix")
+	n := 0
+	for _, name := range []string{"AppendString", "AppendBytes"} {
+		f := p.Method(cborRel, "Encoder", name)
+		if !r.Anchor(f != nil, rule, "cbor.Encoder."+name) {
+			continue
+		}
+		fv := p.View(f, "keep-prefix", func(g *ssa.Function) bool { return g == prefix })
+		var val *ssa.Parameter
+		for _, pr := range fv.Params[1:] {
+			if isByteSlice(pr.Type()) || isStringType(pr.Type()) {
+				val = pr // the last string/bytes parameter is the value
+			}
+		}
+		if val == nil {
+			continue
+		}
+		isLenVal := func(v ssa.Value) bool {
+			for {
+				if c, ok := v.(*ssa.Convert); ok {
+					v = c.X
+					continue
+				}
+				break
+			}
+			x, ok := lenTerm(v)
+			return ok && stripChange(x) == ssa.Value(val)
+		}
+		bad, badPos := "", ""
+		eachInstr(fv, func(b *ssa.BasicBlock, i int, in ssa.Instruction) {
+			c, ok := in.(*ssa.Call)
+			if !ok {
+				return
+			}
+			if prefix != nil && staticCallee(&c.Call) == prefix && len(c.Call.Args) == 3 {
+				if !isLenVal(c.Call.Args[2]) && bad == "" {
+					bad, badPos = "the prefixed length is "+descr(c.Call.Args[2])+", not len("+val.Name()+")", p.Pos(c.Pos())
+				}
+				return
+			}
+			if builtinName(&c.Call) == "append" && isByteSlice(c.Type()) {
+				if sp, _ := appendElems(c); sp != nil {
+					if _, isConst := constString(sp); !isConst && stripChange(sp) != ssa.Value(val) && bad == "" {
+						bad, badPos = "the payload appended is "+descr(sp)+", not "+val.Name()+" itself", p.Pos(c.Pos())
+					}
+				}
+			}
+		})
+		// the inline (<= 23) form: major | byte(l) with l = len(val)
+		eachInstr(fv, func(b *ssa.BasicBlock, i int, in ssa.Instruction) {
+			bo, ok := in.(*ssa.BinOp)
+			if !ok || bo.Op != token.OR {
+				return
+			}
+			for _, side := range []ssa.Value{bo.X, bo.Y} {
+				if cv, ok := side.(*ssa.Convert); ok {
+					if _, isC := cv.X.(*ssa.Const); !isC && !isLenVal(cv.X) && bad == "" {
+						bad, badPos = "the inline length is "+descr(cv.X)+", not len("+val.Name()+")", p.Pos(bo.Pos())
+					}
+				}
+			}
+		})
+		n++
+		r.Ob(rule, FnName(f)+"/length-is-len-of-payload", tern(bad != "", badPos, p.Pos(f.Pos())), bad == "", true, tern(bad == "", "the item announces len("+val.Name()+") and is followed by "+val.Name()+" itself", bad+": for some inputs the announced length differs from the bytes written and the string item swallows (or leaks) the following keys and values"))
+	}
+	if n < 2 {
+		r.Fail(rule, "string-headers/sites", "-", "the CBOR string/bytes appenders were not found")
+	}
+}
+
+// ruleRawTimeTextOnlyOnParseError: the default console timestamp formatter shows the event's own
+// time text unchanged only when it could not be parsed; every parsed time is moved to the
+// configured location and formatted. A "same layout, nothing to do" shortcut prints the time in the
+// event's zone instead of the configured/Local one.
+func ruleRawTimeTextOnlyOnParseError(r *Run, p *Prog, rule string) {
+	f := p.Func("", "consoleDefaultFormatTimestamp")
+	if !r.Anchor(f != nil, rule, "consoleDefaultFormatTimestamp") {
+		return
+	}
+	n := 0
+	for _, g := range f.AnonFuncs {
+		gv := p.View(g, "keep-colorize", func(h *ssa.Function) bool { return h.Name() == "colorize" })
+		if len(gv.Params) != 1 {
+			continue
+		}
+		paths, complete := enumPaths(gv, 1, 6000)
+		if !complete {
+			r.Ob(rule, FnName(f)+"/raw-text-only-on-parse-error", p.Pos(g.Pos()), false, true, "cannot enumerate the paths of the timestamp formatter (undecided, fail closed)")
+			n++
+			continue
+		}
+		in0 := gv.Params[0]
+		isInputString := func(v ssa.Value) bool {
+			if ex, ok := v.(*ssa.Extract); ok && ex.Index == 0 {
+				if ta, ok := ex.Tuple.(*ssa.TypeAssert); ok && ta.X == ssa.Value(in0) && isStringType(ta.AssertedType) {
+					return true
+				}
+			}
+			if ta, ok := v.(*ssa.TypeAssert); ok && ta.X == ssa.Value(in0) && isStringType(ta.AssertedType) {
+				return true
+			}
+			return false
+		}
+		bad, badPos, nRaw := "", "", 0
+		for _, pa := range paths {
+			ret, ok := pa.Exit.(*ssa.Return)
+			if !ok || len(ret.Results) != 1 || pa.Infeasible() {
+				continue
+			}
+			// the text shown: the returned value, or the first argument of colorize
+			shown := pa.Resolve(ret.Results[0])
+			if c, ok := shown.(*ssa.Call); ok {
+				if sc := staticCallee(&c.Call); sc != nil && sc.Name() == "colorize" && len(c.Call.Args) >= 1 {
+					shown = pa.Resolve(c.Call.Args[0])
+					if mi, ok := shown.(*ssa.MakeInterface); ok {
+						shown = pa.Resolve(mi.X)
+					}
+				}
+			}
+			if !isInputString(shown) {
+				continue
+			}
+			nRaw++
+			failed := hasCmp(pa.Cmps(), func(op token.Token, x, y ssa.Value) bool {
+				if !isNilConst(y) || op != token.NEQ {
+					return false
+				}
+				ex, ok := x.(*ssa.Extract)
+				if !ok {
+					return false
+				}
+				c, ok := ex.Tuple.(*ssa.Call)
+				return ok && (isCallTo(&c.Call, "time.ParseInLocation") || isCallTo(&c.Call, "time.Parse"))
+			})
+			if !failed && bad == "" {
+				bad, badPos = pa.String(p), p.Pos(ret.Pos())
+			}
+		}
+		n++
+		r.Ob(rule, FnName(f)+"/raw-text-only-on-parse-error", tern(bad != "", badPos, p.Pos(g.Pos())), bad == "", true, tern(bad == "", fmt.Sprintf("%d path(s) show the event's own time text, all of them after a failed parse", nRaw), "the formatter shows the event's own time text without having failed to parse it (path ["+bad+"]): the time is printed in the zone the event carries instead of the configured TimeLocation (or Local), and sub-second digits are not normalised"))
+	}
+	if n == 0 {
+		r.Fail(rule, FnName(f)+"/raw-text-only-on-parse-error", p.Pos(f.Pos()), "the formatter closure was not found")
+	}
+}
